@@ -1,0 +1,10 @@
+//go:build verif
+
+package eventlog
+
+import "github.com/google/uuid"
+
+// VerifVarBasename exposes varBasename (the path ReadVariable opens) to the verification harness.
+func VerifVarBasename(r *EfiVarFSReader, guid uuid.UUID, name []uint8) (string, error) {
+	return r.varBasename(guid, name)
+}
